@@ -57,9 +57,10 @@ JudgeInput(c, l, inp) ==
   LET r == ParseLR(c.rules, c.start, l, inp.w)
       sent == InLang(c.rules, c.start, inp.w)
       acc == inp.out = 0
-      noSR == SRConflicts(c.rules, c.start, l) = {}
+      \* "conflict-free": no shift/reduce conflict and no reduce/reduce competition settled by priority (a resolved
+      \* conflict necessarily drops the sentences that needed the losing reduction - reading of C02, DESIGN section 6)
+      noSR == SRConflicts(c.rules, c.start, l) = {} /\ RRCompetitions(c.rules, c.start, l) = {}
   IN IF r[1] = "loop" THEN (IF inp.out = 0 THEN "accepted-where-automaton-loops"
-                            ELSE IF sent /\ noSR THEN "sentence-not-accepted@automaton-loops"
                             ELSE "ok")   \* a hang on a non-sentence is C08's business
      ELSE IF inp.out > 1 THEN "not-UnexpectedInput-or-hang"
      ELSE IF acc /\ ~sent THEN "accepted-nonsentence"
